@@ -40,42 +40,117 @@ Definition import_rs (i : import) : list range := [im_sym i; im_full i].
 Definition aidl_rs (a : aidl) : list range :=
   package_rs (ai_package a) ++ flat_map import_rs (ai_imports a) ++ flat_map import_rs (ai_declared a) ++ item_rs (ai_item a).
 
+(* ---- every node with the ranges of its subtree: (full range, name range and all descendants' ranges) ---- *)
+Definition nest := (range * list range)%type.
+Fixpoint ty_nests (t : ty) : list nest :=
+  match t with
+  | Ty _ _ g s f => (f, s :: flat_map ty_rs g) :: (fix go (l : list ty) : list nest := match l with [] => [] | x :: r => ty_nests x ++ go r end) g
+  end.
+Lemma ty_nests_eq n k g s f : ty_nests (Ty n k g s f) = (f, s :: flat_map ty_rs g) :: flat_map ty_nests g.
+Proof. reflexivity. Qed.
+Definition arg_nests (a : arg) : list nest := (a_full a, dir_rs (a_dir a) ++ ty_rs (a_ty a) ++ [a_sym a]) :: ty_nests (a_ty a).
+Definition method_nests (m : method) : list nest :=
+  (m_full m, ty_rs (m_ret m) ++ flat_map arg_rs (m_args m) ++ [m_sym m; m_code_range m; m_oneway_range m]) ::
+  ty_nests (m_ret m) ++ flat_map arg_nests (m_args m).
+Definition const_nests (c : const) : list nest := (c_full c, ty_rs (c_ty c) ++ [c_sym c]) :: ty_nests (c_ty c).
+Definition field_nests (f : field) : list nest := (f_full f, ty_rs (f_ty f) ++ [f_sym f]) :: ty_nests (f_ty f).
+Definition ee_nests (e : enum_elem) : list nest := [(ee_full e, [ee_sym e])].
+Definition ie_nests (e : iface_elem) : list nest := match e with IEConst c => const_nests c | IEMethod m => method_nests m end.
+Definition pe_nests (e : parc_elem) : list nest := match e with PEConst c => const_nests c | PEField f => field_nests f end.
+Definition interface_nests (i : interface) : list nest := (i_full i, flat_map ie_rs (i_elems i) ++ [i_sym i]) :: flat_map ie_nests (i_elems i).
+Definition parcelable_nests (p : parcelable) : list nest := (pc_full p, flat_map pe_rs (pc_elems p) ++ [pc_sym p]) :: flat_map pe_nests (pc_elems p).
+Definition enum_nests (e : enum) : list nest := (e_full e, flat_map ee_rs (e_elems e) ++ [e_sym e]) :: flat_map ee_nests (e_elems e).
+Definition item_nests (it : item) : list nest :=
+  match it with ItInterface i => interface_nests i | ItParcelable p => parcelable_nests p | ItEnum e => enum_nests e end.
+Definition package_nests (p : package) : list nest := [(pk_full p, [pk_sym p])].
+Definition import_nests (i : import) : list nest := [(im_full i, [im_sym i])].
+Definition aidl_nests (a : aidl) : list nest :=
+  package_nests (ai_package a) ++ flat_map import_nests (ai_imports a) ++ flat_map import_nests (ai_declared a) ++ item_nests (ai_item a).
+
+(* ---- siblings: the full ranges of the members of a list, in source order ---- *)
+Definition ie_full (e : iface_elem) : range := match e with IEConst c => c_full c | IEMethod m => m_full m end.
+Definition pe_full (e : parc_elem) : range := match e with PEConst c => c_full c | PEField f => f_full f end.
+Fixpoint seq_ok (l : list range) : Prop :=
+  match l with
+  | r1 :: ((r2 :: _) as t) => off_e r1 <= off_s r2 /\ seq_ok t
+  | _ => True
+  end.
+Fixpoint ty_chains (t : ty) : list (list range) :=
+  match t with
+  | Ty _ _ g _ _ => map ty_full g :: (fix go (l : list ty) : list (list range) := match l with [] => [] | x :: r => ty_chains x ++ go r end) g
+  end.
+Definition arg_chains (a : arg) : list (list range) := ty_chains (a_ty a).
+Definition method_chains (m : method) : list (list range) := map a_full (m_args m) :: ty_chains (m_ret m) ++ flat_map arg_chains (m_args m).
+Definition const_chains (c : const) : list (list range) := ty_chains (c_ty c).
+Definition field_chains (f : field) : list (list range) := ty_chains (f_ty f).
+Definition ie_chains (e : iface_elem) : list (list range) := match e with IEConst c => const_chains c | IEMethod m => method_chains m end.
+Definition pe_chains (e : parc_elem) : list (list range) := match e with PEConst c => const_chains c | PEField f => field_chains f end.
+Definition interface_chains (i : interface) : list (list range) := map ie_full (i_elems i) :: flat_map ie_chains (i_elems i).
+Definition parcelable_chains (p : parcelable) : list (list range) := map pe_full (pc_elems p) :: flat_map pe_chains (pc_elems p).
+Definition enum_chains (e : enum) : list (list range) := [map ee_full (e_elems e)].
+Definition item_chains (it : item) : list (list range) :=
+  match it with ItInterface i => interface_chains i | ItParcelable p => parcelable_chains p | ItEnum e => enum_chains e end.
+Definition aidl_chains (a : aidl) : list (list range) :=
+  map im_full (ai_imports a) :: map im_full (ai_declared a) :: item_chains (ai_item a).
+
 (* ---- what a stack value says about positions ---- *)
-Inductive fact := FRng (r : range) | FLoc (l : N) | FErr (e : perr).
+Inductive fact := FRng (r : range) | FLoc (l : N) | FErr (e : perr) | FNest (n : nest) | FChain (c : list range).
+Definition nf (rs : list range) (ns : list nest) (cs : list (list range)) : list fact := map FRng rs ++ map FNest ns ++ map FChain cs.
+
+(* the full range of the node a list element holds (none for elements that are not nodes) *)
+Fixpoint tops (v : sem) : list range :=
+  match v with
+  | VOpt (Some x) => tops x
+  | VIE e => [ie_full e] | VPE e => [pe_full e] | VEnumElem e => [ee_full e] | VArg a => [a_full a] | VType t => [ty_full t]
+  | VImport i => [im_full i]
+  | _ => []
+  end.
 
 Fixpoint facts (v : sem) : list fact :=
   match v with
   | VLoc l => [FLoc l]
   | VOpt (Some x) => facts x
-  | VVec l | VTuple l => (fix go (l : list sem) : list fact := match l with [] => [] | x :: r => facts x ++ go r end) l
+  | VVec l => FChain ((fix go (l : list sem) : list range := match l with [] => [] | x :: r => tops x ++ go r end) l) ::
+              (fix go (l : list sem) : list fact := match l with [] => [] | x :: r => facts x ++ go r end) l
+  | VTuple l => (fix go (l : list sem) : list fact := match l with [] => [] | x :: r => facts x ++ go r end) l
   | VErr e => [FErr e]
-  | VAidl a => map FRng (aidl_rs a) | VPackage p => map FRng (package_rs p) | VImport i => map FRng (import_rs i)
-  | VItem it => map FRng (item_rs it) | VInterface i => map FRng (interface_rs i) | VParcelable p => map FRng (parcelable_rs p)
-  | VEnum e => map FRng (enum_rs e) | VMethod m => map FRng (method_rs m) | VArg a => map FRng (arg_rs a)
-  | VDirection d => map FRng (dir_rs d) | VConst c => map FRng (const_rs c) | VField f => map FRng (field_rs f)
-  | VEnumElem e => map FRng (ee_rs e) | VType t => map FRng (ty_rs t) | VIE e => map FRng (ie_rs e) | VPE e => map FRng (pe_rs e)
+  | VAidl a => nf (aidl_rs a) (aidl_nests a) (aidl_chains a) | VPackage p => nf (package_rs p) (package_nests p) []
+  | VImport i => nf (import_rs i) (import_nests i) []
+  | VItem it => nf (item_rs it) (item_nests it) (item_chains it) | VInterface i => nf (interface_rs i) (interface_nests i) (interface_chains i)
+  | VParcelable p => nf (parcelable_rs p) (parcelable_nests p) (parcelable_chains p)
+  | VEnum e => nf (enum_rs e) (enum_nests e) (enum_chains e) | VMethod m => nf (method_rs m) (method_nests m) (method_chains m)
+  | VArg a => nf (arg_rs a) (arg_nests a) (arg_chains a)
+  | VDirection d => nf (dir_rs d) [] [] | VConst c => nf (const_rs c) (const_nests c) (const_chains c)
+  | VField f => nf (field_rs f) (field_nests f) (field_chains f)
+  | VEnumElem e => nf (ee_rs e) (ee_nests e) [] | VType t => nf (ty_rs t) (ty_nests t) (ty_chains t) | VIE e => nf (ie_rs e) (ie_nests e) (ie_chains e)
+  | VPE e => nf (pe_rs e) (pe_nests e) (pe_chains e)
   | _ => []
   end.
 
-Lemma facts_vec l : facts (VVec l) = flat_map facts l.
+Lemma facts_vec l : facts (VVec l) = FChain (flat_map tops l) :: flat_map facts l.
 Proof. reflexivity. Qed.
 Lemma facts_tuple l : facts (VTuple l) = flat_map facts l.
-Proof. exact (facts_vec l). Qed.
+Proof. reflexivity. Qed.
 
 Definition err_ord (e : perr) : Prop :=
   match e with EUnrecognizedToken s _ e' _ | EExtraToken s _ e' => s <= e' | _ => True end.
 
+(* r lies inside f *)
+Definition inside (f r : range) : Prop := off_s f <= off_s r /\ off_e r <= off_e f.
+Definition nest_ok (n : nest) : Prop := Forall (fun r => inside (fst n) r) (snd n).
 Definition fin (a b : N) (f : fact) : Prop :=
-  match f with FRng r => rin a b r | FLoc l => a <= l /\ l <= b | FErr e => err_ord e end.
+  match f with FRng r => rin a b r | FLoc l => a <= l /\ l <= b | FErr e => err_ord e | FNest n => nest_ok n | FChain c => seq_ok c end.
 Definition v_in (a b : N) (v : sem) : Prop := Forall (fin a b) (facts v).
 
 Lemma fin_weaken a b a' b' f : a' <= a -> b <= b' -> fin a b f -> fin a' b' f.
-Proof. intros Ha Hb. destruct f; cbn [fin]; unfold rin; [lia|lia|auto]. Qed.
+Proof. intros Ha Hb. destruct f; cbn [fin]; unfold rin; [lia|lia|auto|auto|auto]. Qed.
 Lemma v_in_weaken a b a' b' v : a' <= a -> b <= b' -> v_in a b v -> v_in a' b' v.
 Proof. intros Ha Hb H. unfold v_in in *. eapply Forall_impl; [|exact H]. intros f. apply fin_weaken; assumption. Qed.
 
 Lemma Forall_FR a b l : Forall (fin a b) (map FRng l) <-> Forall (fun r => rin a b r) l.
 Proof. rewrite Forall_map. reflexivity. Qed.
+Lemma Forall_nf a b rs ns cs : Forall (fin a b) (nf rs ns cs) <-> Forall (fun r => rin a b r) rs /\ Forall nest_ok ns /\ Forall seq_ok cs.
+Proof. unfold nf. rewrite !Forall_app, !Forall_map. reflexivity. Qed.
 
 Definition diag_ord (d : diag) : Prop := rle (d_range d) /\ Forall rle (d_related d).
 
@@ -108,36 +183,78 @@ Section User.
   Lemma with_doc_in lo hi p k : (forall d, res_in lo hi (k d)) -> res_in lo hi (with_doc cx p k).
   Proof. intros H. unfold with_doc. destruct p; try apply bad_in. destruct (get_javadoc (cx_src cx) n); [apply H|apply panic_in]. Qed.
 
-  Lemma all_of_in {X} (f : sem -> option X) (rs : X -> list range) :
-    (forall v x, f v = Some x -> facts v = map FRng (rs x)) ->
-    forall l r a b, all_of f l = Some r -> v_in a b (VVec l) -> Forall (fun x => rin a b x) (flat_map rs r).
+  Lemma seq_cons_in r l a b a' b' : rin a b r -> Forall (fun x => rin a' b' x) l -> b <= a' -> seq_ok l -> seq_ok (r :: l).
   Proof.
-    intros Hf. induction l as [|v l IH]; intros r a b H V; cbn in H; [inversion H; constructor|].
-    destruct (f v) as [x|] eqn:E; [|discriminate]. destruct (all_of f l) as [r'|] eqn:E'; [|discriminate]. inversion H; subst.
-    unfold v_in in V. rewrite facts_vec in V. cbn [flat_map] in V. apply Forall_app in V as [V1 V2].
-    cbn [flat_map]. apply Forall_app. split.
-    - rewrite (Hf _ _ E) in V1. apply Forall_FR in V1. exact V1.
-    - apply (IH r' a b eq_refl). unfold v_in. rewrite facts_vec. exact V2.
+    intros R F L S. destruct l as [|r2 l]; [exact I|]. cbn [seq_ok]. split; [|exact S].
+    inversion F as [|? ? R2 _]; subst. unfold rin in *. lia.
   Qed.
-  Lemma flatten_in {X} (f : sem -> option X) (rs : X -> list range) :
-    (forall v x, f v = Some x -> facts v = map FRng (rs x)) ->
-    forall l r a b, flatten_opts f l = Some r -> v_in a b (VVec l) -> Forall (fun x => rin a b x) (flat_map rs r).
+  Lemma seq_app_in l1 : forall l2 a b a' b', Forall (fun x => rin a b x) l1 -> Forall (fun x => rin a' b' x) l2 -> b <= a' ->
+    seq_ok l1 -> seq_ok l2 -> seq_ok (l1 ++ l2).
   Proof.
-    intros Hf. induction l as [|v l IH]; intros r a b H V; cbn in H; [inversion H; constructor|].
-    unfold v_in in V. rewrite facts_vec in V. cbn [flat_map] in V. apply Forall_app in V as [V1 V2].
-    assert (V2' : v_in a b (VVec l)) by (unfold v_in; rewrite facts_vec; exact V2).
+    induction l1 as [|r l1 IH]; intros l2 a b a' b' F1 F2 L S1 S2; [exact S2|]. cbn [app].
+    inversion F1 as [|? ? R F1']; subst. destruct l1 as [|r' l1].
+    - cbn [app]. eapply seq_cons_in; eauto.
+    - cbn [seq_ok] in S1. destruct S1 as [S1a S1b]. cbn [app seq_ok]. split; [exact S1a|]. apply (IH l2 a b a' b'); auto.
+  Qed.
+
+  Lemma seq_tl r l : seq_ok (r :: l) -> seq_ok l.
+  Proof. destruct l; cbn [seq_ok]; [auto|tauto]. Qed.
+  Lemma seq_app_r l1 l2 : seq_ok (l1 ++ l2) -> seq_ok l2.
+  Proof. induction l1 as [|r l1 IH]; cbn [app]; [auto|]. intros H. apply IH. exact (seq_tl _ _ H). Qed.
+
+  (* the elements of a list value: their ranges, their nestings, and the chain of their full ranges *)
+  Lemma all_of_in {X} (f : sem -> option X) (rs : X -> list range) (ns : X -> list nest) (cs : X -> list (list range)) (full : X -> range) :
+    (forall v x, f v = Some x -> facts v = nf (rs x) (ns x) (cs x) /\ tops v = [full x]) ->
+    forall l r a b, all_of f l = Some r -> v_in a b (VVec l) ->
+      Forall (fun x => rin a b x) (flat_map rs r) /\ Forall nest_ok (flat_map ns r) /\ Forall seq_ok (flat_map cs r) /\ seq_ok (map full r).
+  Proof.
+    intros Hf. induction l as [|v l IH]; intros r a b H V; cbn in H; [inversion H; repeat split; constructor|].
+    destruct (f v) as [x|] eqn:E; [|discriminate]. destruct (all_of f l) as [r'|] eqn:E'; [|discriminate]. inversion H; subst.
+    unfold v_in in V. rewrite facts_vec in V. inversion V as [|? ? VC V']; subst. cbn [fin flat_map] in VC, V'. apply Forall_app in V' as [V1 V2].
+    destruct (Hf _ _ E) as [Hf1 Hf2]. rewrite Hf1 in V1. apply Forall_nf in V1 as [V1a [V1b V1c]]. rewrite Hf2 in VC. cbn [app] in VC.
+    assert (SL : seq_ok (flat_map tops l)) by exact (seq_tl _ _ VC).
+    destruct (IH r' a b eq_refl ltac:(unfold v_in; rewrite facts_vec; constructor; [exact SL|exact V2])) as [I1 [I2 [I3 I4]]].
+    cbn [flat_map map]. repeat split; try (apply Forall_app; split; assumption).
+    assert (TM : forall l0 r0, all_of f l0 = Some r0 -> flat_map tops l0 = map full r0).
+    { induction l0 as [|v0 l0 IH0]; intros r0 H0; cbn in H0; [inversion H0; reflexivity|].
+      destruct (f v0) as [x0|] eqn:E0; [|discriminate]. destruct (all_of f l0) as [r0'|]; [|discriminate]. inversion H0; subst.
+      cbn [flat_map map]. rewrite (proj2 (Hf _ _ E0)), (IH0 _ eq_refl). reflexivity. }
+    rewrite (TM _ _ E') in VC. exact VC.
+  Qed.
+  Lemma flatten_in {X} (f : sem -> option X) (rs : X -> list range) (ns : X -> list nest) (cs : X -> list (list range)) (full : X -> range) :
+    (forall v x, f v = Some x -> facts v = nf (rs x) (ns x) (cs x) /\ tops v = [full x]) ->
+    forall l r a b, flatten_opts f l = Some r -> v_in a b (VVec l) ->
+      Forall (fun x => rin a b x) (flat_map rs r) /\ Forall nest_ok (flat_map ns r) /\ Forall seq_ok (flat_map cs r) /\ seq_ok (map full r).
+  Proof.
+    intros Hf.
+    assert (TM : forall l0 r0, flatten_opts f l0 = Some r0 -> flat_map tops l0 = map full r0).
+    { induction l0 as [|v0 l0 IH0]; intros r0 H0; cbn in H0; [inversion H0; reflexivity|].
+      destruct v0; try discriminate. destruct o as [x0|].
+      - destruct (f x0) as [y0|] eqn:E0; [|discriminate]. destruct (flatten_opts f l0) as [r0'|]; [|discriminate]. inversion H0; subst.
+        cbn [flat_map map tops]. rewrite (proj2 (Hf _ _ E0)), (IH0 _ eq_refl). reflexivity.
+      - cbn [flat_map tops app]. apply IH0. exact H0. }
+    induction l as [|v l IH]; intros r a b H V; pose proof (TM _ _ H) as TMH; cbn in H; [inversion H; repeat split; constructor|].
+    unfold v_in in V. rewrite facts_vec in V. inversion V as [|? ? VC V']; subst. cbn [fin flat_map] in VC, V'. apply Forall_app in V' as [V1 V2].
+    assert (SL : seq_ok (flat_map tops l)) by exact (seq_app_r _ _ VC).
+    assert (V2' : v_in a b (VVec l)) by (unfold v_in; rewrite facts_vec; constructor; [exact SL|exact V2]).
     destruct v; try discriminate. destruct o as [x|].
     - destruct (f x) as [y|] eqn:E; [|discriminate]. destruct (flatten_opts f l) as [r'|] eqn:E'; [|discriminate]. inversion H; subst.
-      cbn [flat_map]. apply Forall_app. split; [|apply (IH r' a b eq_refl V2')].
-      cbn [facts] in V1. rewrite (Hf _ _ E) in V1. apply Forall_FR in V1. exact V1.
+      cbn [facts] in V1. destruct (Hf _ _ E) as [Hf1 Hf2]. rewrite Hf1 in V1. apply Forall_nf in V1 as [V1a [V1b V1c]].
+      destruct (IH r' a b eq_refl V2') as [I1 [I2 [I3 I4]]]. cbn [flat_map map]. repeat split; try (apply Forall_app; split; assumption).
+      cbn [flat_map] in TMH. rewrite TMH in VC. exact VC.
     - apply (IH r a b H V2').
   Qed.
 
-  Lemma as_ie_f v x : as_ie v = Some x -> facts v = map FRng (ie_rs x).  Proof. destruct v; cbn; intros H; inversion H; reflexivity. Qed.
-  Lemma as_pe_f v x : as_pe v = Some x -> facts v = map FRng (pe_rs x).  Proof. destruct v; cbn; intros H; inversion H; reflexivity. Qed.
-  Lemma as_ee_f v x : as_ee v = Some x -> facts v = map FRng (ee_rs x).  Proof. destruct v; cbn; intros H; inversion H; reflexivity. Qed.
-  Lemma as_arg_f v x : as_arg v = Some x -> facts v = map FRng (arg_rs x).  Proof. destruct v; cbn; intros H; inversion H; reflexivity. Qed.
-  Lemma as_import_f v x : as_import v = Some x -> facts v = map FRng (import_rs x).  Proof. destruct v; cbn; intros H; inversion H; reflexivity. Qed.
+  Lemma as_ie_f v x : as_ie v = Some x -> facts v = nf (ie_rs x) (ie_nests x) (ie_chains x) /\ tops v = [ie_full x].
+  Proof. destruct v; cbn; intros H; inversion H; split; reflexivity. Qed.
+  Lemma as_pe_f v x : as_pe v = Some x -> facts v = nf (pe_rs x) (pe_nests x) (pe_chains x) /\ tops v = [pe_full x].
+  Proof. destruct v; cbn; intros H; inversion H; split; reflexivity. Qed.
+  Lemma as_ee_f v x : as_ee v = Some x -> facts v = nf (ee_rs x) (ee_nests x) [] /\ tops v = [ee_full x].
+  Proof. destruct v; cbn; intros H; inversion H; split; reflexivity. Qed.
+  Lemma as_arg_f v x : as_arg v = Some x -> facts v = nf (arg_rs x) (arg_nests x) (arg_chains x) /\ tops v = [a_full x].
+  Proof. destruct v; cbn; intros H; inversion H; split; reflexivity. Qed.
+  Lemma as_import_f v x : as_import v = Some x -> facts v = nf (import_rs x) (import_nests x) [] /\ tops v = [im_full x].
+  Proof. destruct v; cbn; intros H; inversion H; split; reflexivity. Qed.
 
   Lemma diag_of_error_ord e d : err_ord e -> diag_of_error cx e = Some d -> diag_ord d.
   Proof.
@@ -161,6 +278,9 @@ Section User.
   Lemma v_in_tuple_cons a b x l : v_in a b (VTuple (x :: l)) -> v_in a b x /\ v_in a b (VTuple l).
   Proof. unfold v_in. rewrite !facts_tuple. cbn [flat_map]. intros H. apply Forall_app in H. exact H. Qed.
 
+  Lemma ty_full_in a b t : Forall (fun r => rin a b r) (ty_rs t) -> rin a b (ty_full t).
+  Proof. destruct t. rewrite ty_rs_eq. intros H. inversion H as [|? ? _ H']; subst. inversion H'; subst. assumption. Qed.
+
   Ltac chain := repeat match goal with
                        | H : vs_in _ _ (_ :: _) |- _ => inversion H; subst; clear H
                        | H : vs_in _ _ [] |- _ => inversion H; subst; clear H
@@ -181,42 +301,51 @@ Section User.
     | H : v_in _ _ (VOpt (Some _)) |- _ => apply v_in_some in H
     | H : v_in _ _ (VTuple (_ :: _)) |- _ => apply v_in_tuple_cons in H; destruct H
     | H : v_in _ _ (VTuple []) |- _ => clear H
-    | H : v_in _ _ _ |- _ => unfold v_in in H; cbn [facts] in H; apply Forall_FR in H
+    | H : v_in _ _ _ |- _ => unfold v_in in H; cbn [facts] in H; apply Forall_nf in H; destruct H as [? [? ?]]
     end.
   Ltac norm := repeat norm1.
-  Ltac leaf := unfold rin in *; lia.
+  Ltac leaf := unfold inside, rin in *; lia.
   Ltac fa :=
     repeat first
       [ apply Forall_nil
-      | apply Forall_cons; [leaf|]
+      | assumption
+      | apply Forall_cons; [first [leaf | assumption | solve [cbn [seq_ok map]; repeat split; leaf] | (unfold nest_ok; cbn [fst snd])]|]
       | apply Forall_app; split
       | match goal with H : Forall (fun x => rin ?a ?b x) ?l |- Forall (fun x => rin _ _ x) ?l =>
-          eapply Forall_impl; [|exact H]; cbn beta; intros ? ?; leaf end ].
+          eapply Forall_impl; [|exact H]; cbn beta; intros ? ?; leaf end
+      | match goal with H : Forall (fun x => rin ?a ?b x) ?l |- Forall (fun x => inside _ x) ?l =>
+          eapply Forall_impl; [|exact H]; cbn beta; intros ? ?; leaf end
+      | match goal with H : Forall nest_ok ?l |- Forall nest_ok ?l => exact H end ].
   Ltac fin_ok :=
-    apply ok_in; unfold v_in; cbn [facts]; try apply Forall_FR;
+    apply ok_in; unfold v_in; cbn [facts]; try (apply Forall_nf; split; [|split]);
+    repeat match goal with H : Forall (fun r => rin ?a ?b r) (ty_rs ?t) |- _ =>
+             lazymatch goal with _ : rin a b (ty_full t) |- _ => fail | _ => pose proof (ty_full_in a b t H) end end;
     unfold dir_rs, arg_rs, method_rs, const_rs, field_rs, ee_rs, ie_rs, pe_rs, interface_rs, parcelable_rs, enum_rs, item_rs, package_rs,
-           import_rs, aidl_rs in *;
-    cbn [ty_rs a_dir a_ty a_sym a_full m_ret m_args m_sym m_full m_code_range m_oneway_range c_ty c_sym c_full f_ty f_sym f_full ee_sym ee_full
+           import_rs, aidl_rs, arg_nests, method_nests, const_nests, field_nests, ee_nests, ie_nests, pe_nests, interface_nests,
+           parcelable_nests, enum_nests, item_nests, package_nests, import_nests, aidl_nests, arg_chains, method_chains, const_chains,
+           field_chains, ie_chains, pe_chains, interface_chains, parcelable_chains, enum_chains, item_chains, aidl_chains in *;
+    cbn [ty_rs ty_nests ty_chains a_dir a_ty a_sym a_full m_ret m_args m_sym m_full m_code_range m_oneway_range c_ty c_sym c_full f_ty f_sym f_full ee_sym ee_full
          i_elems i_full i_sym pc_elems pc_full pc_sym e_elems e_full e_sym pk_sym pk_full im_sym im_full ai_package ai_imports ai_declared ai_item
          app flat_map map] in *;
     repeat match goal with
            | H : Forall _ (_ :: _) |- _ => inversion H; subst; clear H
            | H : Forall _ (_ ++ _) |- _ => apply Forall_app in H; destruct H
            | H : Forall _ [] |- _ => clear H
+           | H : nest_ok (_, _) |- _ => unfold nest_ok in H; cbn [fst snd] in H
            end;
     fa.
   Ltac vecs :=
     repeat match goal with
            | H : all_of as_import ?l = Some _, V : v_in _ _ (VVec ?l) |- _ =>
-               pose proof (all_of_in as_import import_rs as_import_f _ _ _ _ H V); clear H
+               destruct (all_of_in as_import import_rs import_nests (fun _ => []) im_full as_import_f _ _ _ _ H V) as [? [? [? ?]]]; clear H
            | H : all_of as_arg ?l = Some _, V : v_in _ _ (VVec ?l) |- _ =>
-               pose proof (all_of_in as_arg arg_rs as_arg_f _ _ _ _ H V); clear H
+               destruct (all_of_in as_arg arg_rs arg_nests arg_chains a_full as_arg_f _ _ _ _ H V) as [? [? [? ?]]]; clear H
            | H : flatten_opts as_ie ?l = Some _, V : v_in _ _ (VVec ?l) |- _ =>
-               pose proof (flatten_in as_ie ie_rs as_ie_f _ _ _ _ H V); clear H
+               destruct (flatten_in as_ie ie_rs ie_nests ie_chains ie_full as_ie_f _ _ _ _ H V) as [? [? [? ?]]]; clear H
            | H : flatten_opts as_pe ?l = Some _, V : v_in _ _ (VVec ?l) |- _ =>
-               pose proof (flatten_in as_pe pe_rs as_pe_f _ _ _ _ H V); clear H
+               destruct (flatten_in as_pe pe_rs pe_nests pe_chains pe_full as_pe_f _ _ _ _ H V) as [? [? [? ?]]]; clear H
            | H : flatten_opts as_ee ?l = Some _, V : v_in _ _ (VVec ?l) |- _ =>
-               pose proof (flatten_in as_ee ee_rs as_ee_f _ _ _ _ H V); clear H
+               destruct (flatten_in as_ee ee_rs ee_nests (fun _ => []) ee_full as_ee_f _ _ _ _ H V) as [? [? [? ?]]]; clear H
            end.
   Ltac go := repeat step; try solve [apply ok_in; apply Forall_nil]; vecs; norm; try fin_ok.
 
@@ -267,7 +396,11 @@ Section User.
     - unfold act_TypeRawMap. go.
     - unfold act_TypeCustom. go.
     - unfold act_AnnotationList. repeat step. apply ok_in. unfold v_in. rewrite facts_vec. clear.
-      match goal with |- Forall _ (flat_map facts (map VAnnotation ?l)) => induction l as [|x l IH]; cbn; [constructor|exact IH] end.
+      match goal with |- Forall _ (_ :: flat_map facts (map VAnnotation ?l)) =>
+        assert (E1 : flat_map tops (map VAnnotation l) = []) by (induction l as [|x l IH]; cbn; [reflexivity|exact IH]);
+        assert (E2 : flat_map facts (map VAnnotation l) = []) by (clear; induction l as [|x l IH]; cbn; [reflexivity|exact IH]);
+        rewrite E1, E2 end.
+      constructor; [exact I|constructor].
     - unfold act_OptAnnotation. go.
     - unfold act_AnnotationParam. go.
     - unfold act_ValueToString. go.
@@ -493,24 +626,66 @@ Proof.
   - pose proof (vs_in_le _ _ _ D). eapply v_in_weaken; [| |exact C]; lia.
   - eapply Forall_impl; [|exact IH]. intros x Hx. eapply v_in_weaken; [| |exact Hx]; lia.
 Qed.
-Lemma v_in_vec a b l : v_in a b (VVec l) <-> Forall (v_in a b) l.
+Lemma v_in_vec a b l : v_in a b (VVec l) <-> seq_ok (flat_map tops l) /\ Forall (v_in a b) l.
 Proof.
-  unfold v_in. rewrite facts_vec. induction l as [|x l IH]; cbn [flat_map]; [split; constructor|].
+  unfold v_in. rewrite facts_vec. split.
+  - intros H. inversion H as [|? ? HC H']; subst. split; [exact HC|]. clear HC H.
+    induction l as [|x l IH]; cbn [flat_map] in *; [constructor|]. apply Forall_app in H' as [H1 H2]. constructor; [exact H1|apply IH; exact H2].
+  - intros [HC H]. constructor; [exact HC|]. clear HC. induction H as [|x l Hx _ IH]; cbn [flat_map]; [constructor|].
+    apply Forall_app. split; assumption.
+Qed.
+Lemma v_in_tuple a b l : v_in a b (VTuple l) <-> Forall (v_in a b) l.
+Proof.
+  unfold v_in. rewrite facts_tuple. induction l as [|x l IH]; cbn [flat_map]; [split; constructor|].
   rewrite Forall_app. split; [intros [H1 H2]; constructor; [exact H1|apply IH; exact H2]|].
   intros H. inversion H; subst. split; [assumption|apply IH; assumption].
 Qed.
-Lemma v_in_tuple a b l : v_in a b (VTuple l) <-> Forall (v_in a b) l.
-Proof. exact (v_in_vec a b l). Qed.
 Lemma v_in_bad a b : v_in a b VBad.  Proof. constructor. Qed.
-Lemma v_in_push a b v e : v_in a b v -> v_in a b e -> v_in a b (vec_push v e).
+
+(* the full range of a list element lies where the element lies *)
+Lemma last2_in {A} (P : A -> Prop) l x y : Forall P (l ++ [x; y]) -> P x /\ P y.
+Proof. intros H. apply Forall_app in H as [_ H]. inversion H as [|? ? Hx H']; subst. inversion H'; subst. auto. Qed.
+Lemma tops_in : forall v a b, v_in a b v -> Forall (fun r => rin a b r) (tops v).
 Proof.
-  intros Hv He. destruct v; try apply v_in_bad. cbn [vec_push]. apply v_in_vec. apply Forall_app. split; [apply v_in_vec; exact Hv|].
-  constructor; [exact He|constructor].
+  fix IH 1. intros v a b H. destruct v; cbn [tops]; try apply Forall_nil.
+  - destruct o as [x|]; [apply IH; exact H|constructor].
+  - unfold v_in in H. cbn [facts] in H. apply Forall_nf in H as [H _]. unfold import_rs in H.
+    constructor; [|constructor]. inversion H as [|? ? _ H']; subst. inversion H'; subst. assumption.
+  - unfold v_in in H. cbn [facts] in H. apply Forall_nf in H as [H _]. unfold arg_rs in H. rewrite app_assoc in H.
+    constructor; [|constructor]. apply (last2_in _ _ _ _ H).
+  - unfold v_in in H. cbn [facts] in H. apply Forall_nf in H as [H _]. unfold ee_rs in H.
+    constructor; [|constructor]. inversion H as [|? ? _ H']; subst. inversion H'; subst. assumption.
+  - unfold v_in in H. cbn [facts] in H. apply Forall_nf in H as [H _]. constructor; [|constructor]. apply ty_full_in. exact H.
+  - unfold v_in in H. cbn [facts] in H. apply Forall_nf in H as [H _]. constructor; [|constructor].
+    destruct e as [c|m]; cbn [ie_rs ie_full] in *.
+    + unfold const_rs in H. apply (last2_in _ _ _ _ H).
+    + unfold method_rs in H. rewrite app_assoc in H. apply Forall_app in H as [_ H].
+      inversion H as [|? ? _ H']; subst. inversion H'; subst. assumption.
+  - unfold v_in in H. cbn [facts] in H. apply Forall_nf in H as [H _]. constructor; [|constructor].
+    destruct e as [c|f]; cbn [pe_rs pe_full] in *; [unfold const_rs in H|unfold field_rs in H]; apply (last2_in _ _ _ _ H).
 Qed.
-Lemma v_in_push_opt a b v e : v_in a b v -> v_in a b e -> v_in a b (vec_push_opt v e).
+Lemma tops_small v : seq_ok (tops v).
 Proof.
-  intros Hv He. destruct v; try apply v_in_bad. cbn [vec_push_opt]. destruct e; try apply v_in_bad. destruct o as [x|]; [|exact Hv].
-  apply v_in_vec. apply Forall_app. split; [apply v_in_vec; exact Hv|]. constructor; [exact He|constructor].
+  revert v. fix IH 1. intros v. destruct v; cbn [tops]; try exact I. destruct o as [x|]; [apply IH|exact I].
+Qed.
+
+Lemma v_in_push lo hi a1 b1 a2 b2 v e : v_in a1 b1 v -> v_in a2 b2 e -> lo <= a1 -> b1 <= a2 -> b2 <= hi -> a1 <= b1 -> a2 <= b2 ->
+  v_in lo hi (vec_push v e).
+Proof.
+  intros Hv He L1 L2 L3 L4 L5. destruct v; try apply v_in_bad. cbn [vec_push]. apply v_in_vec in Hv as [HC HF]. apply v_in_vec. split.
+  - rewrite flat_map_app. cbn [flat_map]. rewrite app_nil_r.
+    apply (seq_app_in _ _ a1 b1 a2 b2); [|apply tops_in; exact He|exact L2|exact HC|apply tops_small].
+    clear -HF. induction HF as [|x l Hx _ IH]; cbn [flat_map]; [constructor|]. apply Forall_app. split; [apply tops_in; exact Hx|exact IH].
+  - apply Forall_app. split.
+    + eapply Forall_impl; [|exact HF]. intros x Hx. eapply v_in_weaken; [| |exact Hx]; lia.
+    + constructor; [eapply v_in_weaken; [| |exact He]; lia|constructor].
+Qed.
+Lemma v_in_push_opt lo hi a1 b1 a2 b2 v e : v_in a1 b1 v -> v_in a2 b2 e -> lo <= a1 -> b1 <= a2 -> b2 <= hi -> a1 <= b1 -> a2 <= b2 ->
+  v_in lo hi (vec_push_opt v e).
+Proof.
+  intros Hv He L1 L2 L3 L4 L5. destruct v; try apply v_in_bad. cbn [vec_push_opt]. destruct e; try apply v_in_bad. destruct o as [x|].
+  - change (VVec (l ++ [x])) with (vec_push (VVec l) x). apply (v_in_push lo hi a1 b1 a2 b2); auto.
+  - eapply v_in_weaken; [| |exact Hv]; lia.
 Qed.
 
 Section Sound.
@@ -654,17 +829,19 @@ Section Sound.
       assert (Q : forall lo hi, vs_in lo hi [tval t1] -> v_in lo hi (tval t1)) by (intros lo hi V; apply vs_in_each in V; inversion V; assumption).
       specialize (S Q). destruct b as [[lo hi]|]; exact S.
     - (* GNone *) inversion H; subst. intros x y _. constructor.
-    - (* GVecNil *) inversion H; subst. intros x y _. constructor.
+    - (* GVecNil *) inversion H; subst. intros x y _. constructor; [exact I|constructor].
     - (* GVecOne *) pose proof (span_use _ _ _ (fun lo hi => v_in lo hi (VVec [tval t1])) F2 H) as S. cbn [map] in S.
-      assert (Q : forall lo hi, vs_in lo hi [tval t1] -> v_in lo hi (VVec [tval t1])) by (intros lo hi V; apply vs_in_each in V; apply v_in_vec; exact V).
+      assert (Q : forall lo hi, vs_in lo hi [tval t1] -> v_in lo hi (VVec [tval t1])) by (intros lo hi V; apply vs_in_each in V; apply v_in_vec; split; [cbn [flat_map]; rewrite app_nil_r; apply tops_small|exact V]).
       specialize (S Q). destruct b as [[lo hi]|]; exact S.
     - (* GPush *) pose proof (span_use _ _ _ (fun lo hi => v_in lo hi (vec_push (tval t1) (tval t2))) F2 H) as S. cbn [map] in S.
       assert (Q : forall lo hi, vs_in lo hi [tval t1; tval t2] -> v_in lo hi (vec_push (tval t1) (tval t2))).
-      { intros lo hi V. apply vs_in_each in V. inversion V as [|? ? V1 V']; subst. inversion V'; subst. apply v_in_push; assumption. }
+      { intros lo hi V. inversion V as [|? ? a1 b1 ? ? A1 B1 C1 V']; subst. inversion V' as [|? ? a2 b2 ? ? A2 B2 C2 V'']; subst.
+        inversion V''; subst. apply (v_in_push lo hi a1 b1 a2 b2); auto. }
       specialize (S Q). destruct b as [[lo hi]|]; exact S.
     - (* GPushOpt *) pose proof (span_use _ _ _ (fun lo hi => v_in lo hi (vec_push_opt (tval t1) (tval t2))) F2 H) as S. cbn [map] in S.
       assert (Q : forall lo hi, vs_in lo hi [tval t1; tval t2] -> v_in lo hi (vec_push_opt (tval t1) (tval t2))).
-      { intros lo hi V. apply vs_in_each in V. inversion V as [|? ? V1 V']; subst. inversion V'; subst. apply v_in_push_opt; assumption. }
+      { intros lo hi V. inversion V as [|? ? a1 b1 ? ? A1 B1 C1 V']; subst. inversion V' as [|? ? a2 b2 ? ? A2 B2 C2 V'']; subst.
+        inversion V''; subst. apply (v_in_push_opt lo hi a1 b1 a2 b2); auto. }
       specialize (S Q). destruct b as [[lo hi]|]; exact S.
     - (* GTuple2 *) pose proof (span_use _ _ _ (fun lo hi => v_in lo hi (VTuple [tval t1; tval t2])) F2 H) as S. cbn [map] in S.
       assert (Q : forall lo hi, vs_in lo hi [tval t1; tval t2] -> v_in lo hi (VTuple [tval t1; tval t2])).
@@ -1231,9 +1408,12 @@ Section Drive.
   Qed.
 End Drive.
 
-(* every range of everything add_content stores has start <= end *)
+(* every range of everything add_content stores has start <= end, every node's full range contains its name range and every
+   range of its descendants, and the full ranges of siblings (imports, declarations, members, arguments, type parameters)
+   follow one another without overlap *)
 Theorem add_content_ordered cx id fr : add_content cx id = Added fr ->
-  Forall diag_ord (fr_diags fr) /\ (forall a, fr_ast fr = Some a -> Forall rle (aidl_rs a)).
+  Forall diag_ord (fr_diags fr) /\
+  (forall a, fr_ast fr = Some a -> Forall rle (aidl_rs a) /\ Forall nest_ok (aidl_nests a) /\ Forall seq_ok (aidl_chains a)).
 Proof.
   unfold add_content, parse.
   assert (I0 : inv 0 (PSt [0%N] [] 0%N (cx_src cx) 0%N [])).
@@ -1243,8 +1423,8 @@ Proof.
   destruct O as [Fd Ov]. destruct r as [v|e| |]; try discriminate.
   - destruct v; try discriminate. destruct o as [x|].
     + destruct x; try discriminate. intros H; inversion H; subst. split; [exact Fd|]. cbn [fr_ast]. intros a0 E; inversion E; subst.
-      destruct Ov as [hi V]. unfold v_in in V. cbn [facts] in V. apply Forall_FR in V. eapply Forall_impl; [|exact V].
-      intros r0 [_ [R _]]. exact R.
+      destruct Ov as [hi V]. unfold v_in in V. cbn [facts] in V. apply Forall_nf in V as [V1 V2]. split; [|exact V2].
+      eapply Forall_impl; [|exact V1]. intros r0 [_ [R _]]. exact R.
     + intros H; inversion H; subst. split; [exact Fd|]. cbn. discriminate.
   - destruct (diag_of_error cx e) as [d|] eqn:E; [|discriminate]. intros H; inversion H; subst. split; [|cbn; discriminate].
     cbn [fr_diags]. apply Forall_app. split; [exact Fd|]. constructor; [eapply diag_of_error_ord; eauto|constructor].
